@@ -6,7 +6,7 @@ R-STATE-PUSH (C01, C04): arms that make a coordinate-keyed state push it uncondi
                    arm reports CustomEvent::Press only when the state was really stored.
 """
 from kq.analysis import blocks_calling, discr_switches
-from kq.core import Resolver, callee_name, is_place, proj, proj_fields
+from kq.core import Resolver, callee_name, is_place, norm_name, proj, proj_fields
 from kq.report import RuleResult
 
 LAYOUT = "kanata_keyberon::layout::Layout"
@@ -75,6 +75,32 @@ def _paths_without_notify(f, region, start):
     """blocks from which the arm is left without passing a handle_press call, following only the
     is_oneshot == false edge of tests on the is_oneshot parameter"""
     pl = [l for l in range(1, f.nargs + 1) if f.local_name(l) == "is_oneshot"]
+    # the same flag as a two-variant enum (`origin: ActionOrigin { Key, OneShotInner }`): the variant that the OneShot arm hands
+    # to its recursive call is "inner", the other one is "not a one-shot"
+    enum_p, key_variant = None, None
+    if not pl:
+        prog_ = f.prog
+        for l in range(1, f.nargs + 1):
+            a = prog_.adts.get(f.local_adt(l) or "")
+            if a and a.get("kind") == "enum" and len(a["variants"]) == 2 and not any(v["fields"] for v in a["variants"]) \
+                    and (f.local_adt(l) or "").startswith("kanata_keyberon::layout::"):
+                inner = set()
+                for bi, t in f.calls():
+                    if norm_name(callee_name(t) or "") == f.norm and len(t["args"]) >= l:
+                        r = Resolver(f).root(t["args"][l - 1])
+                        if r[0] == "agg" and r[1][2].get("adt") == f.local_adt(l):
+                            inner.add(r[1][2]["v"])
+                names = {v["name"] for v in a["variants"]}
+                # most recursive calls pass the "plain key" variant; the other one is passed by the OneShot arm only
+                if inner == names:
+                    cnt = {}
+                    for bi, t in f.calls():
+                        if norm_name(callee_name(t) or "") == f.norm and len(t["args"]) >= l:
+                            r = Resolver(f).root(t["args"][l - 1])
+                            if r[0] == "agg":
+                                cnt[r[1][2]["v"]] = cnt.get(r[1][2]["v"], 0) + 1
+                    key_variant = max(cnt, key=cnt.get)
+                    enum_p = l
 
     def polarity(op):
         pol, cur = 0, op
@@ -84,6 +110,22 @@ def _paths_without_notify(f, region, start):
             if cur["l"] in pl:
                 return pol
             d = f.single_def(cur["l"])
+            if enum_p is not None and d and d[2] == "call" and (callee_name(d[3]) or "").split("::")[-1] in ("eq", "ne") and len(d[3]["args"]) == 2:
+                from kq.analysis import _promoted_variant
+                side, other = None, None
+                for a_ in d[3]["args"]:
+                    r = Resolver(f).root(a_)
+                    if r[0] == "param" and r[1] == enum_p:
+                        side = True
+                    elif r[0] == "const":
+                        other = _promoted_variant(f, r[1], f.local_adt(enum_p))
+                    elif r[0] == "agg" and r[1][2].get("adt") == f.local_adt(enum_p):
+                        other = r[1][2]["v"]
+                if side and other is not None:
+                    is_eq = (callee_name(d[3]) or "").endswith("eq")
+                    val_when_key = 1 if ((other == key_variant) == is_eq) else 0      # value of the test when the flag is "plain key"
+                    return val_when_key ^ pol
+                return None
             if not d or d[2] != "assign":
                 return None
             rv = d[3]
